@@ -205,5 +205,6 @@ def corpus_jobs(capture=True):
         path = os.path.join(cdir, d["tflite"])
         sha = hashlib.sha256(open(path, "rb").read()).hexdigest()[:16]
         args = [CONFIG_INI if a == "@CONFIG_INI@" else a for a in d["args"]]
-        jobs.append({"tflite": path, "sha": sha, "args": args, "capture": capture, "family": "corpus", "seed": os.path.basename(f)})
+        jobs.append({"tflite": path, "sha": sha, "args": args, "capture": capture, "family": "corpus", "seed": os.path.basename(f),
+                     "inputs": d.get("inputs")})
     return jobs
